@@ -66,6 +66,9 @@ def reading(obj, name):
 
 
 def close(got, want, quantum):
+    import enum
+    if isinstance(got, enum.Enum) != isinstance(want, enum.Enum) or (isinstance(got, bool) != isinstance(want, bool)):
+        return False       # WORDS (value 1) == True in Python; the property must return what was assigned
     if got == want:
         return True
     if got is None or want is None or isinstance(got, bool) or isinstance(want, bool):
